@@ -19,7 +19,7 @@ func init() { engines["embed-history"] = engineC19History }
 // struct literals (no re-ranker): attaching embeddings must not switch anything else on.
 func engineC19History(ctx *Ctx) {
 	r := vlib.NewRand(ctx.Seed, ctx.Shard, "embed-history")
-	n := ctx.N(320, 3200)
+	n := ctx.N(320, 9600)
 	alpha := constants.SemanticAlpha
 	origWD, _ := os.Getwd()
 	defer os.Chdir(origWD)
